@@ -77,6 +77,9 @@ func scenarioC02(r *Run) {
 			lc.Mode = "paused-app"
 		case m == 6:
 			lc.Mode = "paused-target"
+		case m == 7 && c.Chance(1, 2, "closing"):
+			// closes in the middle of its transfer while the others carry on
+			lc.Mode = []string{"closing-app", "closing-target"}[c.Pick(2, "closing-side")]
 		default:
 			lc.Mode = "active"
 			active++
@@ -106,10 +109,35 @@ func scenarioC02(r *Run) {
 		}
 		lc.PlanA = Partition(c, na, "app-part")
 		lc.PlanT = Partition(c, nt, "tgt-part")
+		if lc.Mode == "closing-app" {
+			k := c.Pick(len(lc.PlanA)+1, "close-after")
+			lc.PlanA = append(append([]Op{}, lc.PlanA[:k]...), Op{Kind: "close"})
+			if first == "app" && k == 0 {
+				lc.PlanA = append([]Op{{Kind: "write", N: 1}}, lc.PlanA...)
+			}
+		}
+		if lc.Mode == "closing-target" {
+			k := c.Pick(len(lc.PlanT)+1, "close-after")
+			lc.PlanT = append(append([]Op{}, lc.PlanT[:k]...), Op{Kind: "close"})
+			if first == "target" && k == 0 {
+				lc.PlanT = append([]Op{{Kind: "write", N: 1}}, lc.PlanT...)
+			}
+		}
 		conns[i] = lc
 	}
 	if active == 0 {
-		conns[k-1].Mode = "active"
+		lc := conns[k-1]
+		lc.Mode = "active"
+		strip := func(plan []Op) []Op {
+			var out []Op
+			for _, o := range plan {
+				if o.Kind != "close" {
+					out = append(out, o)
+				}
+			}
+			return out
+		}
+		lc.PlanA, lc.PlanT = strip(lc.PlanA), strip(lc.PlanT)
 	}
 	cs := NewConnSet(r, w, first, conns)
 	var modes []string
@@ -134,13 +162,31 @@ func scenarioC02(r *Run) {
 		}
 	}
 	extra := func() []Ev { return append(cs.OpenEv(beforeOpen), cs.PeerEvents()...) }
+	// a connection that was closed on purpose in mid-transfer is over: nothing more is demanded of it
+	ended := func(lc *LConn) bool {
+		if lc.Mode != "closing-app" && lc.Mode != "closing-target" {
+			return false
+		}
+		if lc.App == nil {
+			return false
+		}
+		_, _, aeof, aerr, aclosed, _ := lc.App.Snapshot()
+		if lc.Mode == "closing-app" {
+			return aclosed
+		}
+		if lc.Tp == nil {
+			return aeof || aerr != nil
+		}
+		_, _, _, _, tclosed, _ := lc.Tp.Snapshot()
+		return tclosed
+	}
 	goal := func() bool {
 		cs.Assign()
 		if !cs.AllOpened() {
 			return false
 		}
 		for _, lc := range conns {
-			if !cs.Complete(lc, true) {
+			if !cs.Complete(lc, true) && !ended(lc) {
 				return false
 			}
 		}
@@ -156,7 +202,7 @@ func scenarioC02(r *Run) {
 	if out != GoalMet {
 		waiting := 0
 		for _, lc := range conns {
-			if lc.Opened && !cs.Complete(lc, true) {
+			if lc.Opened && !cs.Complete(lc, true) && !ended(lc) {
 				waiting++
 			}
 		}
@@ -187,7 +233,7 @@ func scenarioC02(r *Run) {
 	}
 	all := func() bool {
 		for _, lc := range conns {
-			if !cs.Complete(lc, false) {
+			if !cs.Complete(lc, false) && !ended(lc) {
 				return false
 			}
 		}
